@@ -69,7 +69,8 @@ struct Template {
     _node: Node,
     root: std::path::PathBuf,
     storage: std::path::PathBuf,
-    rid: radicle::prelude::RepoId,
+    /// the repositories of the storage (they share the COB cache database)
+    rids: Vec<radicle::prelude::RepoId>,
     commits: Vec<(git::Oid, git::Oid)>,
 }
 
@@ -79,26 +80,50 @@ fn template() -> &'static Template {
         let tmp = tempfile::tempdir().expect("tempdir");
         let node = Node::new(tmp, MockSigner::from_seed([0xa1; 32]), "alice");
         let repo = node.project();
-        let rid = repo.id;
-        // g0 = head of alice's default branch (mergeable); g1, g2 = further commits (not on the branch)
-        let raw = &repo.repo.backend;
-        let head = raw
-            .find_reference(&format!("refs/namespaces/{}/refs/heads/master", node.signer.public_key()))
-            .expect("master")
-            .peel_to_commit()
-            .expect("commit");
-        let sig = git2::Signature::new("anonymous", "anonymous@example.com", &git2::Time::new(1_700_000_000, 0)).expect("sig");
-        let tree = head.tree().expect("tree");
+        // a second project in the same storage
+        let (working, _) = radicle::test::fixtures::repository(node.root.join("working-beta"));
+        let (rid2, _, _) = radicle::rad::init(
+            &working,
+            "beta".try_into().expect("name"),
+            "Another repository",
+            git::RefString::try_from("master").expect("refname"),
+            radicle::identity::Visibility::default(),
+            &node.signer,
+            &node.storage,
+        )
+        .expect("rad init");
+        let rids = vec![repo.id, rid2];
+        // g0 = head of alice's default branch (mergeable); g1, g2 = further commits (not on the branch).
+        // Both working copies come from the same fixture, so the commits (and their ids) are the same in
+        // both repositories.
         let mut commits = vec![];
-        let base: git::Oid = head.parent_id(0).map(git::Oid::from).unwrap_or_else(|_| head.id().into());
-        commits.push((base, git::Oid::from(head.id())));
-        for i in 1..3 {
-            let oid = raw.commit(None, &sig, &sig, &format!("commit {i}"), &tree, &[&head]).expect("commit");
-            commits.push((git::Oid::from(head.id()), git::Oid::from(oid)));
+        for (n, rid) in rids.iter().enumerate() {
+            use radicle::storage::ReadStorage;
+            let r = node.storage.repository(*rid).expect("repository");
+            let raw = &r.backend;
+            let head = raw
+                .find_reference(&format!("refs/namespaces/{}/refs/heads/master", node.signer.public_key()))
+                .expect("master")
+                .peel_to_commit()
+                .expect("commit");
+            let sig = git2::Signature::new("anonymous", "anonymous@example.com", &git2::Time::new(1_700_000_000, 0)).expect("sig");
+            let tree = head.tree().expect("tree");
+            let mut cs = vec![];
+            let base: git::Oid = head.parent_id(0).map(git::Oid::from).unwrap_or_else(|_| head.id().into());
+            cs.push((base, git::Oid::from(head.id())));
+            for i in 1..3 {
+                let oid = raw.commit(None, &sig, &sig, &format!("commit {i}"), &tree, &[&head]).expect("commit");
+                cs.push((git::Oid::from(head.id()), git::Oid::from(oid)));
+            }
+            if n == 0 {
+                commits = cs;
+            } else {
+                assert_eq!(commits, cs, "the two fixture repositories have the same commits");
+            }
         }
         let storage = node.storage.path().to_path_buf();
         let root = node.root.clone();
-        Template { _node: node, root, storage, rid, commits }
+        Template { _node: node, root, storage, rids, commits }
     })
 }
 
@@ -119,7 +144,14 @@ fn copy_dir(from: &std::path::Path, to: &std::path::Path) -> std::io::Result<()>
 struct World {
     _tmp: tempfile::TempDir,
     storage: radicle::Storage,
-    repo: Repository,
+    /// the repositories of the storage; they share `db`
+    repos: Vec<Repository>,
+    /// index of the repository the script currently operates on (`R0` / `R1` tokens)
+    cur: usize,
+    /// symbolic name -> index of the repository the object (or the entity inside an object) belongs to
+    owner: BTreeMap<String, usize>,
+    /// class under which a known-stale object is reported (`stale-after-remove` / `cross-repo-remove`)
+    stale_class: BTreeMap<String, &'static str>,
     signers: Vec<Dev>,
     db: StoreWriter,
     commits: Vec<(git::Oid, git::Oid)>,
@@ -172,7 +204,7 @@ impl World {
             git::UserInfo { alias: radicle::node::Alias::new("alice"), key: *signers[0].public_key() },
         )
         .expect("open storage");
-        let repo = storage.repository(t.rid).expect("open repository");
+        let repos: Vec<Repository> = t.rids.iter().map(|rid| storage.repository(*rid).expect("open repository")).collect();
         let db = radicle::cob::cache::Store::<radicle::cob::cache::Write>::memory()
             .expect("memory db")
             .with_migrations(radicle::cob::migrate::ignore)
@@ -180,7 +212,10 @@ impl World {
         let mut w = World {
             _tmp: tmp,
             storage,
-            repo,
+            repos,
+            cur: 0,
+            owner: BTreeMap::new(),
+            stale_class: BTreeMap::new(),
             signers,
             db,
             commits: t.commits.clone(),
@@ -209,6 +244,9 @@ impl World {
         if !self.sym.contains_key(hex) {
             self.sym.insert(hex.to_string(), name.clone());
             self.hex.insert(name.clone(), hex.to_string());
+            if !(name.starts_with('g') || name.starts_with('u')) {
+                self.owner.insert(name.clone(), self.cur);
+            }
             self.pool.push(name);
         }
     }
@@ -238,13 +276,13 @@ impl World {
     }
 
     fn repo(&self) -> &Repository {
-        &self.repo
+        &self.repos[self.cur]
     }
 
     /// A second handle on the same repository (so that `self` stays free for bookkeeping).
     fn reopen(&self) -> Repository {
         use radicle::storage::ReadStorage;
-        self.storage.repository(self.repo.id).expect("reopen repository")
+        self.storage.repository(self.repos[self.cur].id).expect("reopen repository")
     }
 
     // ---- abstract objects (the graph of direct evaluation) ------------------------------------------
@@ -367,7 +405,9 @@ impl World {
         }
         let signer = Device::mock_from_seed([[0xa1u8, 0xb2, 0xc3][s]; 32]);
         let arg = |i: usize| f.get(i).copied().unwrap_or("");
-        let r = if f[0].starts_with('i') {
+        let r = if f[0] == "bogus" {
+            self.bogus_op(&f, &signer)
+        } else if f[0].starts_with('i') {
             self.issue_op(&f, tag, &signer, local)
         } else {
             self.patch_op(&f, tag, &signer, local)
@@ -377,6 +417,27 @@ impl World {
             Ok(d) => d,
             Err(e) => Done::Failed(e),
         }
+    }
+
+    /// `bogus.S.(p|i).NAME`: signer `S` advertises, in the current repository, a COB reference carrying the id
+    /// `NAME` (typically the id of an object of ANOTHER repository) that points to a commit which is not a COB
+    /// change. Nothing evaluates from it; the fetch reports the reference as created.
+    fn bogus_op(&mut self, f: &[&str], signer: &Dev) -> Result<Done, String> {
+        let kind = match f.get(2) {
+            Some(&"p") => Kind::Patch,
+            Some(&"i") => Kind::Issue,
+            _ => return Err("bad-arg".into()),
+        };
+        let oid = self.oid_of(f.get(3).copied().unwrap_or("")).ok_or("unknown-ref")?;
+        let refname = format!(
+            "refs/namespaces/{}/refs/cobs/xyz.radicle.{}/{}",
+            signer.public_key(),
+            if kind == Kind::Patch { "patch" } else { "issue" },
+            oid
+        );
+        let target: git2::Oid = self.commits[0].1.into();
+        self.repo().backend.reference(&refname, target, true, "bogus").map_err(|e| e.to_string())?;
+        Ok(Done::Touched(kind, ObjectId::from(oid)))
     }
 
     fn patch_op(&mut self, f: &[&str], tag: &str, signer: &Dev, local: bool) -> Result<Done, String> {
@@ -655,6 +716,56 @@ impl World {
 
     // ---- immediate staleness check (oracle) ----------------------------------------------------------
 
+    /// The row of `name` was rewritten by an operation on the current repository: if the object belongs to this
+    /// repository it is in sync again.
+    fn refreshed(&mut self, patch: bool, name: &str) {
+        if self.owner.get(name).map(|o| *o == self.cur).unwrap_or(true) {
+            if patch {
+                self.stale_p.remove(name);
+                self.dirty_p.remove(name);
+            } else {
+                self.stale_i.remove(name);
+                self.dirty_i.remove(name);
+            }
+        }
+    }
+
+    /// `write_all` on the current repository.
+    fn refreshed_all(&mut self, patch: bool) {
+        let cur = self.cur;
+        let owner = self.owner.clone();
+        let keep = |n: &String| owner.get(n).map(|o| *o != cur).unwrap_or(false);
+        if patch {
+            self.stale_p.retain(keep);
+            self.dirty_p.retain(keep);
+        } else {
+            self.stale_i.retain(keep);
+            self.dirty_i.retain(keep);
+        }
+    }
+
+    /// `remove` / `cache_cobs` in the current repository deleted the row `name` of an object of ANOTHER repository?
+    fn check_foreign_row(&mut self, kind: Kind, id: &ObjectId, name: &str) {
+        let Some(own) = self.owner.get(name).copied() else { return };
+        if own == self.cur {
+            return;
+        }
+        let save = self.cur;
+        self.cur = own;
+        let (eq, cached_none, direct_some) = self.probe(kind, id);
+        self.cur = save;
+        if eq {
+            return;
+        }
+        if direct_some && cached_none {
+            if kind == Kind::Patch { self.stale_p.insert(name.to_string()); } else { self.stale_i.insert(name.to_string()); }
+            self.stale_class.insert(name.to_string(), "cross-repo-remove");
+            self.viol.push(("cross-repo-remove".into(), format!("{name}: an operation on repository R{save} deleted the cache row of this object of repository R{own} (alive there)")));
+        } else {
+            self.viol.push((if kind == Kind::Patch { "get-mismatch" } else { "issue-get-mismatch" }.into(), format!("{name}: after an operation on repository R{save} the row of this object of R{own} differs from direct evaluation")));
+        }
+    }
+
     /// (cached get == direct get, cached get is `Ok(None)`, direct get is `Some`)
     fn probe(&self, kind: Kind, id: &ObjectId) -> (bool, bool, bool) {
         let repo = self.reopen();
@@ -719,7 +830,17 @@ impl World {
             if !judge {
                 self.tags.insert("unjudged-while-dirty".into());
             } else if c == d_adj {
-                self.viol.push(("stale-after-remove".to_string(), format!("{what}: cached={c} direct={d} (object removed locally, kept alive by another peer's reference)")));
+                let cur = self.cur;
+                let classes: BTreeSet<&'static str> = self
+                    .stale_p
+                    .iter()
+                    .chain(self.stale_i.iter())
+                    .filter(|n| self.owner.get(*n) == Some(&cur))
+                    .map(|n| self.stale_class.get(n).copied().unwrap_or("stale-after-remove"))
+                    .collect();
+                for class in classes {
+                    self.viol.push((class.to_string(), format!("{what}: cached={c} direct={d} (the difference is exactly the objects whose row a remove deleted while they are alive)")));
+                }
             } else {
                 self.viol.push((class.to_string(), format!("{what}: cached={c} direct={d}")));
             }
@@ -736,12 +857,27 @@ impl World {
         if v.is_empty() { "-".into() } else { v.join(",") }
     }
 
+    /// Every query on every repository of the storage (the pool is the same for all: ids of the objects of
+    /// one repository are unknown ids for the other).
     fn query(&mut self) -> (String, String) {
+        let pool = self.pool.clone();
+        let save = self.cur;
+        let mut outs = vec![];
+        for i in 0..self.repos.len() {
+            self.cur = i;
+            let o = self.query_repo(&pool);
+            outs.push(format!("R{i}[{o}]"));
+        }
+        self.cur = save;
+        (pool.join(","), outs.join(" ## "))
+    }
+
+    fn query_repo(&mut self, pool: &[String]) -> String {
         use issue::cache::Issues as IQ;
         use patch::cache::Patches as PQ;
         let repo = self.reopen();
         let repo = &repo;
-        let pool = self.pool.clone();
+        let pool = pool.to_vec();
         let mut out = vec![];
         fn s<E: std::fmt::Display>(e: E) -> String {
             e.to_string()
@@ -900,13 +1036,46 @@ impl World {
         let a = self.cmp_if(self.dirty_i.is_empty(), "issue-counts-mismatch", "issue counts", c, d, adj);
         out.push(format!("IC:{a}"));
 
-        (pool.join(","), out.join("|"))
+        out.join("|")
     }
 
     /// Model assumptions, checked on the real objects: serde round-trip of every object; a revision id
     /// occurs (non-redacted) in at most one patch, and if it is a patch id, in that patch.
     fn check_assumptions(&mut self) {
+        let save = self.cur;
+        let mut seen: BTreeMap<String, usize> = BTreeMap::new();
+        for i in 0..self.repos.len() {
+            self.cur = i;
+            self.check_assumptions_repo(&mut seen);
+        }
+        self.cur = save;
+    }
+
+    fn check_assumptions_repo(&mut self, seen: &mut BTreeMap<String, usize>) {
         let repo = self.reopen();
+        let cur = self.cur;
+        // an object id lives in one repository only (ids are content hashes)
+        let mut note = |w: &mut World, id: String| {
+            if let Some(o) = seen.insert(id.clone(), cur) {
+                if o != cur {
+                    w.viol.push(("id-in-two-repositories".into(), format!("object {id} evaluates in R{o} and R{cur}")));
+                }
+            }
+        };
+        if let Ok(ps) = patch::Patches::open(&repo) {
+            if let Ok(all) = ps.all() {
+                for (id, _) in all.filter_map(|r| r.ok()) {
+                    note(self, id.to_string());
+                }
+            }
+        }
+        if let Ok(is) = issue::Issues::open(&repo) {
+            if let Ok(all) = is.all() {
+                for (id, _) in all.filter_map(|r| r.ok()) {
+                    note(self, id.to_string());
+                }
+            }
+        }
         let Ok(ps) = patch::Patches::open(&repo) else { return };
         let Ok(all) = ps.all() else { return };
         let all: Vec<(ObjectId, Patch)> = all.filter_map(|r| r.ok()).collect();
@@ -944,7 +1113,7 @@ impl World {
     }
 }
 
-const LOCAL_OPS: &[&str] = &["pc", "pd", "rev", "red", "cm", "cred", "rv", "rvc", "rvred", "lc", "mg", "ed", "rm", "ic", "icm", "icred", "ilc", "ied", "irm"];
+const LOCAL_OPS: &[&str] = &["bogus", "pc", "pd", "rev", "red", "cm", "cred", "rv", "rvc", "rvred", "lc", "mg", "ed", "rm", "ic", "icm", "icred", "ilc", "ied", "irm"];
 
 /// Executes the script; returns the outcome and the annotated input (script + regenerated annotations).
 fn run_script(input: &str) -> (Outcome, String) {
@@ -976,11 +1145,21 @@ fn run_script(input: &str) -> (Outcome, String) {
                         let abs = w.abs(kind, &id);
                         w.tags.insert(if abs == "-" { "remove-last-ref".into() } else { "remove-object-survives".to_string() });
                         annotated.push(format!("@rm:{kc}:{n}={abs}"));
+                        let foreign = w.owner.get(&n).map(|o| *o != w.cur).unwrap_or(false);
+                        if foreign {
+                            // the id belongs to an object of another repository: nothing to remove here
+                            w.tags.insert("remove-id-of-other-repository".into());
+                            w.check_foreign_row(kind, &id, &n);
+                        }
                         let (eq, cached_none, direct_some) = w.probe(kind, &id);
-                        if kind == Kind::Patch { w.dirty_p.remove(&n); } else { w.dirty_i.remove(&n); }
+                        if !foreign {
+                            if kind == Kind::Patch { w.dirty_p.remove(&n); } else { w.dirty_i.remove(&n); }
+                        }
                         let stale = if kind == Kind::Patch { &mut w.stale_p } else { &mut w.stale_i };
-                        stale.remove(&n);
-                        if eq {
+                        if !foreign {
+                            stale.remove(&n);
+                        }
+                        if eq || foreign {
                             // in sync (the last reference is gone, or the row was refreshed)
                         } else if direct_some && cached_none {
                             // known finding: removed by the local signer, alive through another peer's reference
@@ -995,7 +1174,7 @@ fn run_script(input: &str) -> (Outcome, String) {
                         let abs = w.abs_checked(kind, &id, if head == "pc" || head == "pd" || head == "ic" { "stale-after-create" } else { "stale-after-update" });
                         w.tags.insert(format!("ok-{head}"));
                         annotated.push(format!("@ok:{kc}:{n}={abs}"));
-                        if kind == Kind::Patch { w.stale_p.remove(&n); w.dirty_p.remove(&n); } else { w.stale_i.remove(&n); w.dirty_i.remove(&n); }
+                        w.refreshed(kind == Kind::Patch, &n);
                     }
                 }
             }
@@ -1079,7 +1258,7 @@ fn run_script(input: &str) -> (Outcome, String) {
                                 refs_ann.push(format!("{k}{sn}:{kc}"));
                                 w.tags.insert(format!("refupdate-{kc}"));
                                 // cache_cobs rewrites (or removes) this row
-                                if k == 'p' { w.stale_p.remove(&sn); w.dirty_p.remove(&sn); } else { w.stale_i.remove(&sn); w.dirty_i.remove(&sn); }
+                                w.refreshed(k == 'p', &sn);
                             }
                         }
                     }
@@ -1105,6 +1284,7 @@ fn run_script(input: &str) -> (Outcome, String) {
                 }
             }
             let rid = w.repo().id;
+            let _ = &rid;
             let repo = w.reopen();
             let mut db = w.db.clone();
             let r = catch(|| cache_cobs(&rid, &updates, &repo, &mut db).map_err(|e| e.to_string()));
@@ -1123,7 +1303,13 @@ fn run_script(input: &str) -> (Outcome, String) {
                 } else {
                     w.dirty_i.contains(&n) || w.stale_i.contains(&n)
                 };
-                let abs = if unjudged { w.abs(*kind, id) } else { w.abs_checked(*kind, id, "stale-after-fetch") };
+                let foreign = w.owner.get(&n).map(|o| *o != w.cur).unwrap_or(false);
+                let abs = if unjudged || foreign { w.abs(*kind, id) } else { w.abs_checked(*kind, id, "stale-after-fetch") };
+                if foreign {
+                    // a reference update of THIS repository named the id of an object of another repository
+                    w.tags.insert("fetched-id-of-other-repository".into());
+                    w.check_foreign_row(*kind, id, &n);
+                }
                 chg.push(format!("{}{n}={abs}", if *kind == Kind::Patch { 'p' } else { 'i' }));
             }
             let chg = if chg.is_empty() { "-".to_string() } else { chg.join("&") };
@@ -1146,7 +1332,7 @@ fn run_script(input: &str) -> (Outcome, String) {
                     };
                     w.tags.insert(if ok { "ok-write".into() } else { "fail-write".to_string() });
                     if ok {
-                        if head == "w" { w.stale_p.remove(name); w.dirty_p.remove(name); } else { w.stale_i.remove(name); w.dirty_i.remove(name); }
+                        w.refreshed(head == "w", name);
                     }
                 }
             }
@@ -1165,8 +1351,11 @@ fn run_script(input: &str) -> (Outcome, String) {
             }
             w.tags.insert("ok-write-all".into());
             if ok {
-                if *tok == "wa" { w.stale_p.clear(); w.dirty_p.clear(); } else { w.stale_i.clear(); w.dirty_i.clear(); }
+                w.refreshed_all(*tok == "wa");
             }
+        } else if *tok == "R0" || *tok == "R1" {
+            w.cur = if *tok == "R0" { 0 } else { 1 };
+            w.tags.insert(format!("switch-{tok}"));
         } else if *tok == "q" {
             let (pool, out) = w.query();
             annotated.push(format!("@pool:{pool}"));
@@ -1206,6 +1395,7 @@ struct GRev {
 
 #[derive(Default, Clone)]
 struct GPatch {
+    repo: usize,
     name: String,
     revs: Vec<GRev>,
     removed: bool,
@@ -1214,12 +1404,15 @@ struct GPatch {
 
 #[derive(Default, Clone)]
 struct GIssue {
+    repo: usize,
     name: String,
     comments: Vec<(String, usize)>,
     removed: bool,
 }
 
 struct Gen {
+    /// the repository the script is currently operating on
+    cur: usize,
     patches: Vec<GPatch>,
     issues: Vec<GIssue>,
 }
@@ -1230,12 +1423,25 @@ impl Gen {
     /// One operation by signer `s`; `tag` names the created entity.
     fn op(&mut self, rng: &mut Rng, s: usize, tag: &str) -> String {
         let sg = S[s];
-        let live_p: Vec<usize> = (0..self.patches.len()).filter(|i| !self.patches[*i].removed || rng.chance(1, 6)).collect();
-        let live_i: Vec<usize> = (0..self.issues.len()).filter(|i| !self.issues[*i].removed || rng.chance(1, 6)).collect();
+        let cur = self.cur;
+        // once in a while an operation names an object of the OTHER repository (rm / bogus reference)
+        if rng.chance(1, 40) {
+            let other_p: Vec<&GPatch> = self.patches.iter().filter(|p| p.repo != cur && !p.removed).collect();
+            let other_i: Vec<&GIssue> = self.issues.iter().filter(|i| i.repo != cur && !i.removed).collect();
+            if !other_p.is_empty() && rng.bool() {
+                let n = &rng.pick(&other_p).name;
+                return if s == 0 { format!("rm.a.{n}") } else { format!("bogus.{sg}.p.{n}") };
+            } else if !other_i.is_empty() {
+                let n = &rng.pick(&other_i).name;
+                return if s == 0 { format!("irm.a.{n}") } else { format!("bogus.{sg}.i.{n}") };
+            }
+        }
+        let live_p: Vec<usize> = (0..self.patches.len()).filter(|i| self.patches[*i].repo == cur && (!self.patches[*i].removed || rng.chance(1, 6))).collect();
+        let live_i: Vec<usize> = (0..self.issues.len()).filter(|i| self.issues[*i].repo == cur && (!self.issues[*i].removed || rng.chance(1, 6))).collect();
         let choice = rng.below(100);
         if live_p.is_empty() && choice < 70 || choice < 12 {
             let name = format!("p{tag}");
-            self.patches.push(GPatch { name: name.clone(), revs: vec![GRev { name, author: s, ..Default::default() }], removed: false, others: s != 0 });
+            self.patches.push(GPatch { repo: cur, name: name.clone(), revs: vec![GRev { name, author: s, ..Default::default() }], removed: false, others: s != 0 });
             return format!("{}.{sg}.{}", if rng.chance(1, 4) { "pd" } else { "pc" }, rng.pick(&[0, 0, 1, 2]));
         }
         if choice < 70 {
@@ -1290,7 +1496,7 @@ impl Gen {
             };
         }
         if live_i.is_empty() || choice < 78 {
-            self.issues.push(GIssue { name: format!("i{tag}"), ..Default::default() });
+            self.issues.push(GIssue { repo: cur, name: format!("i{tag}"), ..Default::default() });
             return format!("ic.{sg}.{}", rng.below(9));
         }
         let ii = *rng.pick(&live_i);
@@ -1315,19 +1521,28 @@ impl Gen {
 }
 
 fn gen_case(rng: &mut Rng, max_ops: u64) -> String {
-    let mut g = Gen { patches: vec![], issues: vec![] };
+    let mut g = Gen { cur: 0, patches: vec![], issues: vec![] };
     let n = rng.range(6, max_ops);
     let mut toks: Vec<String> = vec![];
     // the repository was changed behind the cache's back (`x:`) and not yet re-read with write_all
     let mut dirty = false;
-    fn resync(toks: &mut Vec<String>, dirty: &mut bool) {
+    fn resync(toks: &mut Vec<String>, dirty: &mut bool, cur: usize) {
         if *dirty {
-            toks.push("wa".into());
-            toks.push("iwa".into());
+            // write_all is per repository: re-read both, come back to the current one
+            for r in [1 - cur, cur] {
+                toks.push(format!("R{r}"));
+                toks.push("wa".into());
+                toks.push("iwa".into());
+            }
             *dirty = false;
         }
     }
     while (toks.len() as u64) < n {
+        // the storage holds two repositories sharing the cache: switch between them now and then
+        if rng.chance(1, 7) {
+            g.cur = 1 - g.cur;
+            toks.push(format!("R{}", g.cur));
+        }
         let k = toks.len();
         let r = rng.below(100);
         if r < 60 {
@@ -1360,18 +1575,18 @@ fn gen_case(rng: &mut Rng, max_ops: u64) -> String {
             } else if !g.issues.is_empty() {
                 toks.push(format!("iw.{}", rng.pick(&g.issues).name));
             } else {
-                resync(&mut toks, &mut dirty);
+                resync(&mut toks, &mut dirty, g.cur);
                 toks.push("q".into());
             }
         } else {
             // mostly re-read everything before asking; sometimes ask while out of date (nothing is judged then)
             if !rng.chance(1, 8) {
-                resync(&mut toks, &mut dirty);
+                resync(&mut toks, &mut dirty, g.cur);
             }
             toks.push("q".into());
         }
     }
-    resync(&mut toks, &mut dirty);
+    resync(&mut toks, &mut dirty, g.cur);
     toks.push("q".into());
     toks.join(" ")
 }
